@@ -214,6 +214,22 @@ class Ctx:
         self.log("%s: %s distinct / %s generated states, %.1fs" % (stage, r.get("distinct"), r.get("generated"), r["wall_s"]))
         return r
 
+    def tlapm(self, comp, module, stage="tlaps", timeout=1200, threads=6):
+        """Proof check with the TLA+ proof system (all obligations must be proved); the module is copied into the work
+        directory so that tlapm's fingerprint cache stays out of the tree."""
+        d = self.path("tlaps-" + module)
+        os.makedirs(d, exist_ok=True)
+        shutil.copy(os.path.join(VERIF, "spec", comp, module + ".tla"), d)
+        t0 = time.time()
+        rc, out, dt = sh(["timeout", str(timeout), "tlapm", "--threads", str(threads), "--cleanfp", module + ".tla"], cwd=d, timeout=timeout + 60)
+        m = re.search(r"All (\d+) obligations? proved", out)
+        if rc != 0 or not m:
+            raise ToolError("tlapm did not prove %s (rc=%s):\n%s" % (module, rc, out[-3000:]))
+        n = int(m.group(1))
+        self.stages.append({"stage": stage, "kind": "TLAPS proof (unbounded)", "module": module, "obligations_proved": n, "wall_s": round(time.time() - t0, 1)})
+        self.log("%s: tlapm proved all %d obligations of %s, %.1fs" % (stage, n, module, time.time() - t0))
+        return n
+
     def gen(self, comp, module, cfg, out_name, stage="gen", **kw):
         out = self.path(out_name)
         if os.path.exists(out):
